@@ -19,6 +19,18 @@
      C07_r2_*             : the current patterns (Model/SafelogRound2.v, frozen copy of /repo d0c6152): what the
                             coverage theorem excludes is really not covered.
 
+   Buffer ownership (io.Writer: "Write must not modify the slice data. Implementations must not retain p."):
+   the writer theorems are stated over byte VALUES, so by themselves they say nothing about a writer that keeps a
+   reference to the caller's slice.  Model/SafelogOwn.v makes the caller's memory explicit: a history is the list of
+   (caller's array at the time of the call, length passed), arbitrary between calls; what the writer keeps is bytes it
+   owns or a view into the caller's array.  C07_write_no_retention: the copying writer (what /repo does:
+   append(ls.buffer, b...)) is the value-level writer on the bytes passed, for EVERY history;
+   C07_retaining_writer_refuted: a writer that keeps the pending partial line as a view of the caller's array lets
+   an address through when the caller refills its array (io.Copy, bufio.Writer, os/exec).  The no-retention half is
+   enforced on the implementation by the tie: the Go driver hands every chunk of every write-splitting case
+   (ops write, lwrite, conc) to Write in ONE scratch array that it overwrites after the call returns, and the model op
+   `write` executes run_scratch, the same delivery (C07_write_scratch_delivery: equal to run_writes).
+
    Concurrent writers: LogScrubber.Write holds ls.lock for its whole body, so concurrent Write calls take effect
    one after the other in the order in which they obtain the mutex.  A history of concurrent writers is therefore
    modelled as the serial list ws of Write calls in that order, and the writer theorems quantify over every list
@@ -27,9 +39,9 @@
    `conc` cases of lib/checks/c07.py. *)
 From Coq Require Import String List NArith.
 From Snow Require Import Lib.Wire Model.Regex Model.RegexIncl Model.Scrub Model.SafelogPinned Gen.SafelogPatterns.
-From Snow Require Import Model.RegexDisj Model.SafelogRound2.
+From Snow Require Import Model.RegexDisj Model.SafelogRound2 Model.SafelogOwn.
 From Snow Require Import Proofs.RegexProofs Proofs.MatcherProofs Proofs.ScrubProofs Proofs.C07Proofs.
-From Snow Require Import Proofs.RegexDisjProofs Proofs.ScrubCoverProofs Proofs.C07CoverProofs.
+From Snow Require Import Proofs.RegexDisjProofs Proofs.ScrubCoverProofs Proofs.C07CoverProofs Proofs.SafelogOwnProofs.
 Import ListNotations.
 Open Scope string_scope.
 Open Scope list_scope.
@@ -125,6 +137,39 @@ Theorem C07_write_split_independent : forall ws1 ws2,
   concat ws1 = concat ws2 ->
   run_writes (write (scrub full_patterns)) [] ws1 = run_writes (write (scrub full_patterns)) [] ws2.
 Proof. exact (write_split_independent (scrub full_patterns)). Qed.
+
+(* ---- buffer ownership: for every history of calls - whatever the caller's array holds outside the slices passed and
+   whatever the caller does to it between the calls - the sink's content and the pending bytes are those of the
+   value-level writer on the bytes passed; the writer's state never refers to the caller's memory (it is `Own`) *)
+Theorem C07_write_no_retention : forall h,
+  run_mem (write_own (scrub full_patterns)) (Own []) h =
+    (fst (run_writes (write (scrub full_patterns)) [] (passed h)),
+     Own (snd (run_writes (write (scrub full_patterns)) [] (passed h)))).
+Proof. exact (write_no_retention (scrub full_patterns)). Qed.
+
+(* ... hence two histories that pass the same stream of bytes, split and placed in memory in any way, are
+   indistinguishable *)
+Theorem C07_write_values_only : forall h1 h2,
+  concat (passed h1) = concat (passed h2) ->
+  run_mem (write_own (scrub full_patterns)) (Own []) h1 = run_mem (write_own (scrub full_patterns)) (Own []) h2.
+Proof. exact (write_values_only (scrub full_patterns)). Qed.
+
+(* the delivery executed by the tie (one scratch array, overwritten after every call) *)
+Theorem C07_write_scratch_delivery : forall ws,
+  run_scratch (scrub full_patterns) ws = run_writes (write (scrub full_patterns)) [] ws.
+Proof. exact (run_scratch_spec (scrub full_patterns)). Qed.
+
+(* a writer that keeps the pending partial line as a view of the caller's array (no copy when nothing is pending),
+   a caller that refills one array of 25 bytes: "up: " | "2001:db8::1 is reachable\n"  ->  "20012001:db8::1 is reachable\n"
+   (frozen patterns of Model/SafelogRound2.v; the copying writer on the same history scrubs the address) *)
+Theorem C07_retaining_writer_refuted :
+  exists h pre w post junk,
+    passed h = [pre; w ++ post] /\ (forall m n, In (m, n) h -> length m = 25) /\
+    matches addr_spec w /\ left_ok pre /\ right_ok post /\
+    fst (run_writes (write sc2) [] (passed h)) = [pre ++ scrubbed ++ post] /\
+    fst (run_mem (write_own sc2) (Own []) h) = [pre ++ scrubbed ++ post] /\
+    fst (run_mem (write_retain sc2) (Own []) h) = [junk ++ w ++ post].
+Proof. exact retaining_writer_refuted. Qed.
 
 Theorem C07_complete_lines : forall ws outs pend,
   run_writes (write (scrub full_patterns)) [] ws = (outs, pend) ->
@@ -272,6 +317,15 @@ Example C07_split_nonvacuous :
   fst (run_writes (write sc) [] [bs "a 1.2."; bs "3.4" ++ [NL] ++ bs "::1 "; bs "x" ++ [NL]]) =
     [bs "a [scrubbed]" ++ [NL]; bs "[scrubbed] x" ++ [NL]].
 Proof. vm_compute. split; reflexivity. Qed.
+
+(* a history whose arrays differ outside the slices passed and are overwritten between the calls *)
+Example C07_no_retention_nonvacuous :
+  passed [(bs "a 1.2.777", 6); (bs "3.4" ++ [NL] ++ bs "x7", 5)] = [bs "a 1.2."; bs "3.4" ++ [NL] ++ bs "x"] /\
+  run_mem (write_own sc) (Own []) [(bs "a 1.2.777", 6); (bs "3.4" ++ [NL] ++ bs "x7", 5)] =
+    ([bs "a [scrubbed]" ++ [NL]], Own (bs "x")) /\
+  concat (passed [(bs "a 1.2.3.4" ++ [NL] ++ bs "x", 11)]) =
+    concat (passed [(bs "a 1.2.777", 6); (bs "3.4" ++ [NL] ++ bs "x7", 5)]).
+Proof. vm_compute. repeat split; reflexivity. Qed.
 
 Example C07_incl_nonvacuous : RegexIncl.incl addr_spec pat_A = true.
 Proof. exact c_inclA. Qed.
